@@ -196,7 +196,7 @@ def r18_4(prog, rep):
         found[kind] = found.get(kind, True) and ok
     for kind in ("dataclass fields", "type hints", "__slots__", "vars()"):
         if kind not in found:
-            rep.violated("R18.4", f.qualname, f.loc, f"attribute source {kind} not found (structure outside the idiom set)", detail=kind)
+            rep.undecided("R18.4", f.qualname, f.loc, f"attribute source {kind} not found (structure outside the idiom set)", detail=kind)
         else:
             rep.check(found[kind], "R18.4", f.qualname, f.loc, f"names from {kind} are filtered by `not name.startswith('_')` on the emitted name", f"names from {kind} are emitted without the public-name filter: private attributes leak into (field, value) pairs", detail=kind)
 
